@@ -41,6 +41,17 @@ class Val:
         self.key, self.n = key, n
 
 
+# key index -> call pattern; "kwlook": a keyword call and a positional call whose argument looks like its keyword item
+PATTERN_SETS = {
+    "plain": [((0,), {}), ((1,), {}), ((2,), {})],
+    "kwlook": [((), {"a": 1}), ((("a", 1),), {}), (("a", 1), {})],
+}
+
+
+def _pattern(case, key):
+    return PATTERN_SETS[case.get("patterns", "plain")][key]
+
+
 @st.composite
 def configs(draw, tier):
     nkeys = draw(st.integers(1, 3))
@@ -55,6 +66,7 @@ def configs(draw, tier):
     return {"tasks": tasks, "maxsize": draw(st.sampled_from([None, 1, 2])), "susp": draw(st.integers(1, 2)),
             "fail": draw(st.one_of(st.none(), st.integers(1, 5))), "cancel": list(cancel) if cancel else None,
             "probe": draw(st.lists(st.integers(0, nkeys - 1), max_size=6)),
+            "patterns": draw(st.sampled_from(["plain", "plain", "kwlook"])),
             "choices": draw(st.lists(st.integers(0, 3), max_size=40))}
 
 
@@ -69,7 +81,11 @@ def run_config(case, choices=None, default="rr"):
     flags = {"overlap": False, "disturbed": False}
     in_flight = [0]
 
-    async def fn(key):
+    by_pattern = {(args, tuple(kw.items())): k
+                  for k, (args, kw) in enumerate(PATTERN_SETS[case.get("patterns", "plain")])}
+
+    async def fn(*args, **kwargs):
+        key = by_pattern[(args, tuple(kwargs.items()))]
         rec = [key, epoch[0], "running"]
         invocations.append(rec)
         n = len(invocations)
@@ -100,7 +116,8 @@ def run_config(case, choices=None, default="rr"):
             if name == "call":
                 calls.append((key, epoch[0]))
                 try:
-                    value = await cached(key)
+                    args, kwargs = _pattern(case, key)
+                    value = await cached(*args, **kwargs)
                 except ValueError:
                     continue
                 if id(value) not in produced or value.key != key:
@@ -113,7 +130,8 @@ def run_config(case, choices=None, default="rr"):
             else:
                 if in_flight[0]:
                     flags["disturbed"] = True
-                cached.cache_discard(key)
+                args, kwargs = _pattern(case, key)
+                cached.cache_discard(*args, **kwargs)
 
     def invariant(sched, t):
         info = cached.cache_info()
@@ -156,7 +174,8 @@ def run_config(case, choices=None, default="rr"):
     observed = []
     for key in case["probe"]:
         before = len(invocations)
-        out = run(ctx, cached(key))
+        pargs, pkwargs = _pattern(case, key)
+        out = run(ctx, cached(*pargs, **pkwargs))
         if out[0] != "return" and not (out[0] == "raise" and isinstance(out[1], ValueError)):
             return sched, [("cache-unusable-after-quiescence", repr(out))], flags
         hit = len(invocations) == before
